@@ -37,21 +37,17 @@ theorem conn_vertex_provenance_v (s : Scene) (p : Seg × List LV) (hp : p ∈ s.
     · obtain ⟨ph, hph, hq⟩ := List.mem_flatMap.mp hq
       unfold vFrom at hq
       split at hq
-      · rcases List.mem_append.mp hq with hq | hq
-        · obtain ⟨q, hqf, hqe⟩ := List.mem_map.mp hq
-          obtain ⟨hq1, hq2⟩ := List.mem_filter.mp hqf
-          have hqt : q.t = p.1.p := by simpa using hq2
-          injection hqe with e1 e2
-          have : q = ⟨p.1.p, .conn k⟩ := by
-            rcases q with ⟨qt, qk⟩
-            simp only at hqt e2
-            rw [hqt, e2]
-          rw [this] at hq1
-          obtain ⟨c, hc, ex, ey⟩ := conn_vertex_provenance s ph hph p.1.p k hq1
-          exact ⟨c, hc, ex, by rw [ey, e1]⟩
-        · split at hq
-          · simp at hq
-          · simp at hq
+      · obtain ⟨q, hqf, hqe⟩ := List.mem_map.mp hq
+        obtain ⟨hq1, hq2⟩ := List.mem_filter.mp hqf
+        have hqt : q.t = p.1.p := by simpa using hq2
+        injection hqe with e1 e2
+        have : q = ⟨p.1.p, .conn k⟩ := by
+          rcases q with ⟨qt, qk⟩
+          simp only at hqt e2
+          rw [hqt, e2]
+        rw [this] at hq1
+        obtain ⟨c, hc, ex, ey⟩ := conn_vertex_provenance s ph hph p.1.p k hq1
+        exact ⟨c, hc, ex, by rw [ey, e1]⟩
       · simp at hq
     · cases hq
   · cases hq
